@@ -36,12 +36,12 @@ MC_Q = {"Modes": '{"server"}', "Heads": "{FALSE}", "RLs": "{1, 3}", "HOSTs": "{1
         "Timeouts": "{TRUE}", "Shuts": "{TRUE}", "Responds": '{"sync", "async", "early", "earlydata"}'}
 GEN_Q = {"RLs": "{1, 2, 3}", "HOSTs": "{1, 2}", "FRs": "{1, 2, 3, 5, 9}", "FR2s": "{1, 3, 5}", "XHs": "{1, 3}",
          "BLANKs": "{1}", "BODYs": "{1, 2, 3, 4, 6, 9, 18}", "TAILs": "{1, 2}", "Dev": 1}
-GEN_T = {"RLs": "1..20", "HOSTs": "1..14", "FRs": "1..27", "FR2s": "1..7", "XHs": "1..14", "BLANKs": "{1, 2}",
-         "BODYs": "1..26", "TAILs": "{1, 2, 3}", "Dev": 1}
+GEN_T = {"RLs": "{1, 2, 3, 4, 5, 6, 7, 8, 9, 10, 11, 12, 13, 14, 15, 16, 17, 18, 19, 20}", "HOSTs": "{1, 2, 3, 4, 5, 6, 7, 8, 9, 10, 11, 12, 13, 14}", "FRs": "{1, 2, 3, 4, 5, 9, 10, 11, 12, 13, 15, 16, 17, 18}", "FR2s": "{1, 2, 3, 4, 5, 6, 7}", "XHs": "{1, 2, 3, 4, 5, 6, 7, 8, 9, 10, 11, 12, 13, 14}", "BLANKs": "{1, 2}",
+         "BODYs": "{1, 2, 3, 4, 5, 6, 7, 9, 10, 11, 18, 21, 22, 24}", "TAILs": "{1, 2, 3}", "Dev": 1}
 TREE_Q = {"RLs": "{1, 3}", "HOSTs": "{1}", "FRs": "{1, 2, 3}", "FR2s": "{1}", "XHs": "{1}", "BODYs": "{1, 2, 3}", "TAILs": "{1, 2}",
           "Dev": 0}
-TREE_T = {"RLs": "{1, 2, 3, 7}", "HOSTs": "{1, 4}", "FRs": "{1, 2, 3, 5, 11, 17}", "FR2s": "{1, 5}", "XHs": "{1}",
-          "BODYs": "{1, 2, 3, 4, 6, 9, 11, 18, 21}", "TAILs": "{1, 2, 3}", "Dev": 1}
+TREE_T = {"RLs": "{1, 3}", "HOSTs": "{1}", "FRs": "{1, 2, 3, 5, 11}", "FR2s": "{1, 5}", "XHs": "{1}",
+          "BODYs": "{1, 2, 3, 4, 9, 18}", "TAILs": "{1, 2}", "Dev": 1}
 
 
 def eof_replayer(extra, path):
@@ -164,12 +164,12 @@ def run(ctx):
     ctx.cov["evaluations"] += runs + truns - len(items) - len(titems)
     ctx.cov["exhaustive"] = True
     # 2c. applications that answer early (validated by TLC: the expected projection depends on the schedule)
-    ej = early_jobs(cases, random.Random(ctx.seed + 5), ctx.pick(6, 1))
+    ej = early_jobs(cases, random.Random(ctx.seed + 5), ctx.pick(6, 3))
     etraces = framework.pool_map(record_early, ej)
     H.validate(ctx, etraces, H.classify_server, label="early")
     ctx.cov["early_answer_runs"] = len(etraces)
     # 3. code -> spec
-    n = ctx.pick(200, 20000)
+    n = ctx.pick(200, 5000)
     traces = framework.pool_map(record_random, [(i + 1, ctx.seed * 1000003 + 77 + i) for i in range(n)])
     H.validate(ctx, traces, H.classify_server)
     ctx.cov["rule"] = ("(a) %d token-grammar wires x {delegate, callback, web app, streaming web app} x peer close after every "
